@@ -1,4 +1,5 @@
 import Ymq.Props.C09
+import Ymq.Props.C07C09
 #print axioms Ymq.C09.step_gcd
 #print axioms Ymq.C09.reduce64_inv
 #print axioms Ymq.C09.gcd_internal_spec
@@ -11,3 +12,5 @@ import Ymq.Props.C09
 #print axioms Ymq.C09.no_panic_ext_domain_sharp
 #print axioms Ymq.C09.inv_mod_no_panic
 #print axioms Ymq.C09.inv_mod_spec
+#print axioms Ymq.C09.zmodn_inv_spec
+#print axioms Ymq.C09.zmodn_gcd_spec
